@@ -447,7 +447,7 @@ const CLOSED: u64 = u64::MAX;
 /// one symbolic operation from an arbitrary reachable channel state (closed, owned by request r,
 /// owned by r with disconnect hint): a channel can only be opened from CLOSED, close/hint only
 /// act on the request that owns the channel, and a closed channel belongs to no request
-proof!(3, fn c11_channel_state_machine() {
+proof!(8, fn c11_channel_state_machine() {
     let r: u64 = kani::any();
     kani::assume(r <= ChannelState::max_value());
     let shape: u8 = kani::any();
